@@ -422,10 +422,7 @@ func c05(p *core.Program, r *core.Report) {
 	spellingRule(p, r, "spelling-variants", g)
 
 	// ---- EMPTY members / offsets in the encoder
-	only := func(o *types.Func) bool {
-		sig, _ := o.Type().(*types.Signature)
-		return o.Pkg().Path() == mod+"/"+wktRel && sig != nil && sig.Recv() != nil && strings.Contains(sig.Recv().Type().String(), "Encoder")
-	}
+	only := apiClosure(p, wktRel, "Encoder")
 	lastElemRule(p, r, "last-elem-guarded", 1, only)
 	chainRule(p, r, "offset-chain", 3, only)
 	lastNonEmptyScanRule(p, r, "last-non-empty-scan", 1, wktRel)
